@@ -200,13 +200,32 @@ pub fn provide_liquidity(
 
     let share = match &pair_info.pair_type {
         PairType::StableSwap { amp } => {
+            // the invariant is only meaningful on amounts expressed with the same precision, so
+            // bring both assets to the precision of the one with the most decimals
+            let max_decimals = pair_info.asset_decimals[0].max(pair_info.asset_decimals[1]);
+            let to_common_precision = |amount: Uint128, decimals: u8| {
+                amount.checked_mul(Uint128::new(
+                    10u128.pow(u32::from(max_decimals - decimals)),
+                ))
+            };
+            let normalized_deposits = [
+                to_common_precision(deposits[0], pair_info.asset_decimals[0])?,
+                to_common_precision(deposits[1], pair_info.asset_decimals[1])?,
+            ];
+            let normalized_pools = [
+                to_common_precision(pools[0].amount, pair_info.asset_decimals[0])?,
+                to_common_precision(pools[1].amount, pair_info.asset_decimals[1])?,
+            ];
+
             if total_share == Uint128::zero() {
                 // Make sure at least MINIMUM_LIQUIDITY_AMOUNT is deposited to mitigate the risk of the first
                 // depositor preventing small liquidity providers from joining the pool
                 let min_lp_token_amount = MINIMUM_LIQUIDITY_AMOUNT * Uint128::from(2u8);
 
-                let share = Uint128::try_from(compute_d(amp, deposits[0], deposits[1]).unwrap())?
-                    .saturating_sub(min_lp_token_amount);
+                let share = Uint128::try_from(
+                    compute_d(amp, normalized_deposits[0], normalized_deposits[1]).unwrap(),
+                )?
+                .saturating_sub(min_lp_token_amount);
 
                 messages.append(&mut mint_lp_token_msg(
                     liquidity_token.clone(),
@@ -226,10 +245,10 @@ pub fn provide_liquidity(
             } else {
                 let amount = compute_lp_mint_amount_for_stableswap_deposit(
                     amp,
-                    deposits[0],
-                    deposits[1],
-                    pools[0].amount,
-                    pools[1].amount,
+                    normalized_deposits[0],
+                    normalized_deposits[1],
+                    normalized_pools[0],
+                    normalized_pools[1],
                     total_share,
                 )
                 .unwrap();
